@@ -99,6 +99,7 @@ pub enum Inner {
     Take { h: u8 },
     Status,
     Resize { n: u8 },
+    Close,
 }
 
 #[derive(Clone, Debug, Serialize, Deserialize, PartialEq, Eq, Hash)]
